@@ -310,6 +310,77 @@ fn recreate_race_scenario() -> ScenFn {
     })
 }
 
+/// The push subscription is deleted and its name re-used (pull-only, or with another endpoint) while the push loop is
+/// in the middle of a round: a message that only the new subscription can hold must never be POSTed to the old
+/// endpoint, and a pull-only subscription is never POSTed to at all.
+fn name_reuse_scenario() -> ScenFn {
+    scen!([] |cx| {
+        cx.set_push_menu(vec![PushAnswer::Status(200)]);
+        let a = cx.api.clone();
+        must!(cx, "setup:create-topic", { let a = a.clone(); async move { a.create_topic(T0).await } });
+        must!(cx, "setup:create-push-sub", { let a = a.clone(); async move { a.create_sub(S0, T0, 10, Some(ENDPOINT)).await } });
+        // a second registered push subscription, so that the loop has something to do before / after S0
+        must!(cx, "setup:create-push-sub", { let a = a.clone(); async move { a.create_sub(S2, T0, 10, Some("http://push.example/other")).await } });
+        {
+            let was = cx.freeze(true);
+            let q = cx.advance_ms(900).await;
+            cx.freeze(was);
+            tryv!(q);
+        }
+        let new_kind = cx.choose("re-created-as", 2); // 0 = pull-only, 1 = push to another endpoint
+        let new_endpoint = if new_kind == 0 { None } else { Some("http://push.example/new") };
+        let h = {
+            let a = a.clone();
+            cx.spawn("client:00-reuse", async move {
+                let d = a.delete_sub(S0).await;
+                let c = a.create_sub(S0, T0, 10, new_endpoint).await;
+                let p = a.publish(T0, vec![(b"for-the-new-one".to_vec(), vec![])]).await;
+                (d, c.map(|_| ()), p)
+            })
+        };
+        // the push loop's next round starts at ~1001 ms: the client and the loop run together (schedules explored)
+        let mut q = cx.advance_ms(102).await;
+        if q.is_ok() {
+            q = cx.quiesce().await;
+        }
+        tryv!(q);
+        {
+            let was = cx.freeze(true);
+            let mut q = Ok(());
+            for _ in 0..240 {
+                if q.is_ok() {
+                    q = cx.advance_ms(10).await;
+                }
+            }
+            cx.freeze(was);
+            tryv!(q);
+        }
+        if !h.is_finished() {
+            return ScenarioOut::viol("name-reuse/hang", "delete; create; publish has not finished 2.5 s later".to_string());
+        }
+        let (d, c, p) = h.await.unwrap();
+        let key = format!("delete:{} create:{} publish:{}", res(&d), res(&c), res(&p.as_ref().map(|_| ()).map_err(|e| *e)));
+        if let (Ok(()), Ok(()), Ok(ids)) = (&d, &c, &p) {
+            let log = cx.push_log();
+            let mut posted_new = false;
+            for att in &log {
+                let body = String::from_utf8_lossy(&att.body).to_string();
+                if body.contains(&ids[0]) && body.contains(S0) {
+                    match new_endpoint {
+                        None => return ScenarioOut::viol("name-reuse/pull-only-subscription-posted-to", format!("{}: the message published after {} was re-created WITHOUT a push endpoint was POSTed to {}", key, S0, att.url)),
+                        Some(e) if att.url != e => return ScenarioOut::viol("name-reuse/posted-to-old-endpoint", format!("{}: the message published after {} was re-created with endpoint {} was POSTed to {}", key, S0, e, att.url)),
+                        _ => posted_new = true,
+                    }
+                }
+            }
+            if new_endpoint.is_some() && !posted_new {
+                return ScenarioOut::viol("name-reuse/not-pushed", format!("{}: the re-created push subscription's message was not POSTed to its endpoint within 2.5 s", key));
+            }
+        }
+        ScenarioOut::ok(key)
+    })
+}
+
 fn status_sweep() -> Unit {
     let f: ScenFn = scen!(|cx| {
         let status = 100 + cx.choose("status", 500) as u16;
@@ -363,6 +434,7 @@ pub fn units(thorough: bool) -> Vec<Unit> {
         explore_unit("fault/long-deadline", "1 message on a push subscription with a 60 s ack deadline; the endpoint answers after 5 / 20 / 40 / 55 s (200 or 500) or at once; 130 rounds: an answer inside the 60 s deadline counts, whatever its delay", Bounds::new(0), cfg.clone(), scenario_y("long-deadline", 1, 130, vec![Delay(40_000, 200), Delay(55_000, 200), Delay(20_000, 500), Delay(5_000, 200), Status(200)], None, true, false, 60)),
         explore_unit("fault/interference", "2 messages failing in the first round; between the rounds a rejected duplicate CreateSubscription of the push subscription (with / without endpoint), an unrelated create, a get: the retries go on regardless", Bounds::new(0), cfg.clone(), scenario_x("interference", 2, 3, vec![Status(500), Status(200)], None, true, true)),
         status_sweep(),
+        explore_unit("sched/name-reuse-during-push-round", "the push subscription is deleted, re-created under the same name pull-only or with another endpoint, and a message is published, all while the push loop starts its round (task orders / preemption points / stalls explored): that message is never POSTed to the old endpoint; a pull-only subscription is never POSTed to", Bounds::new(if thorough { 3 } else { 2 }), cfg.clone(), name_reuse_scenario()),
         explore_unit("sched/delete‖recreate-push", "DeleteSubscription of a push subscription racing with 1-2 CreateSubscription of the same name (started after 0-15 scheduler steps), task orders / select indices / preemption points explored: afterwards a subscription that exists and reports a push endpoint is in the push registry and a new message is POSTed within 2.5 s", Bounds::new(if thorough { 3 } else { 2 }), cfg.clone(), recreate_race_scenario()),
     ];
     if thorough {
